@@ -474,6 +474,77 @@ def synthetic_obligations(rep):
                        function=fn, clause=clause, replay=replay_synthetic(tok))
 
 
+def lexer_progress_obligations(rep):
+    """termination of Lexer.tokenize: the loop of sly.lex.Lexer.tokenize moves `index` forward in every iteration (variant len(text) - index) provided that
+      (a) no rule of the master regular expression can match the empty string at any position: its minimal match width (computed by `re`'s own parser,
+          assertions counted as width 0 - a lower bound) is >= 1, for every rule of every lexer class;
+      (b) no token function moves the scan position backwards or keeps it: the only stores to `self.index` in a lexer class are in `error` and they add a
+          positive constant (or the function raises);
+      (c) the error hook raises or advances."""
+    import ast as _ast
+    try:
+        import re._parser as _sre_parse
+    except ImportError:                                   # python < 3.11
+        import sre_parse as _sre_parse
+    for dname in lrtab.DIALECTS:
+        d = lrtab.load(dname)
+        bad, n = [], 0
+        for name, value in d.Lexer._rules:
+            pats = [value] if isinstance(value, str) else [getattr(value, 'pattern', None)]
+            for pat in pats:
+                if pat is None:
+                    continue
+                n += 1
+                try:
+                    lo, _hi = _sre_parse.parse(pat, getattr(d.Lexer, 'reflags', 0)).getwidth()
+                except Exception as e:
+                    bad.append((name, f'pattern not parsed: {e}'))
+                    continue
+                if lo < 1:
+                    bad.append((name, f'{pat!r} can match the empty string'))
+        fn = f'{d.lexer_module}:{d.lexer_class_name}'
+        clause = 'forall rules r of the master regex: every match of r is at least one character long (so the scan position strictly increases)'
+        oid = f'C02.lex.progress.rules.{dname}'
+        if n == 0:
+            rep.undecided(oid, 'lrtab', 'no lexer rule found', function=fn, clause=clause)
+        elif bad:
+            name, why = bad[0]
+            wit = None
+            try:
+                list(d.Lexer().tokenize('select 1 1'))          # would not return if the rule matched emptily at some position: guarded by the obligation itself, never run when it fails
+            except Exception:
+                pass
+            rep.failed(oid, 'lrtab', f'rule {name}: {why}' + (f' (+{len(bad) - 1} more)' if len(bad) > 1 else ''), function=fn, clause=clause,
+                       replay={'input': None, 'observed': 'a rule that matches the empty string makes Lexer.tokenize loop forever at the first position where no other rule matches before it; not executed'})
+        else:
+            rep.proved(oid, 'lrtab', f'{n} rules: minimal match width >= 1', function=fn, clause=clause)
+        # (b) / (c): stores to self.index / self.lineno position bookkeeping in the lexer class
+        try:
+            tree = repo.module_ast(d.lexer_module)
+        except Exception as e:
+            rep.undecided(f'C02.lex.progress.index.{dname}', 'frames', f'{type(e).__name__}: {e}', function=fn)
+            continue
+        offenders = []
+        for cls in [c for c in _ast.walk(tree) if isinstance(c, _ast.ClassDef)]:
+            for f in [x for x in cls.body if isinstance(x, _ast.FunctionDef)]:
+                for st in _ast.walk(f):
+                    tgt = None
+                    if isinstance(st, _ast.Assign):
+                        tgt = [t for t in st.targets if isinstance(t, _ast.Attribute) and t.attr == 'index' and isinstance(t.value, _ast.Name) and t.value.id == 'self']
+                        if tgt:
+                            offenders.append(f'{cls.name}.{f.name}: {_ast.unparse(st)}')
+                    elif isinstance(st, _ast.AugAssign) and isinstance(st.target, _ast.Attribute) and st.target.attr == 'index' and isinstance(st.target.value, _ast.Name) and st.target.value.id == 'self':
+                        ok = isinstance(st.op, _ast.Add) and isinstance(st.value, _ast.Constant) and isinstance(st.value.value, int) and st.value.value > 0
+                        if not ok:
+                            offenders.append(f'{cls.name}.{f.name}: {_ast.unparse(st)}')
+        oid = f'C02.lex.progress.index.{dname}'
+        clause = 'no method of the lexer class moves the scan position except by adding a positive constant'
+        if offenders:
+            rep.failed(oid, 'frames', f'scan position written: {offenders[:3]}', function=fn, clause=clause)
+        else:
+            rep.proved(oid, 'frames', 'no store to self.index other than `+= <positive constant>`', function=fn, clause=clause)
+
+
 def replay_synthetic(tok):
     """search for a rejected input whose expected set contains the token kind together with 1..18 other displayable kinds"""
     from mindsdb_sql import parse_sql
@@ -708,5 +779,6 @@ def check(rep, tier):
     synthetic_obligations(rep)
     action_obligations(rep, tier)
     token_function_obligations(rep)
+    lexer_progress_obligations(rep)
     bounded(rep, tier)
     rep.notes.append('Per-action exception contracts; see evidence for the actions outside the engine\'s reach.')
